@@ -448,6 +448,54 @@ func (t *FnTrans) modItem(x *Expr, env *Env, f func(comp, sort, ref string)) {
 		es := t.sortOf(u.Elem())
 		f("E."+mangle(es), "(Array Int (Array Int "+es+"))", app("s.base", v.S))
 		return
+	case x.Op == "call" && x.Name == "monitor":
+		// everything the monitors of x's type guard (fields, ghost fields, sleeper / owed / wake counters, tokens) at object x
+		v := env.eval(x.Args[0])
+		n, ok := derefNamed(env.resolveT(v.T))
+		if !ok {
+			t.fail("modifies monitor(%s): not a named type", x.Args[0])
+		}
+		ts := t.eng.specs.Types[typeName(n.Origin())]
+		if ts == nil {
+			t.fail("modifies monitor(%s): type has no monitor", x.Args[0])
+		}
+		tname := tshort(ts.Name)
+		for _, m := range ts.Monitors {
+			mr := &monRef{ts: ts, mon: m}
+			for _, g := range m.Guards {
+				if strings.HasPrefix(g, "global:") {
+					pkg := ts.Name[:strings.LastIndex(ts.Name, ".")]
+					if gs, ok := t.eng.specs.Ghosts[pkg+"."+g[len("global:"):]]; ok {
+						f("GG."+pkg+"."+g[len("global:"):], gs, "")
+					}
+					continue
+				}
+				if strings.HasPrefix(g, "elems:") {
+					if ft := t.fieldTypeByName(ts.Name, g[len("elems:"):]); ft != nil {
+						if u, ok := t.resolve(ft).Underlying().(*types.Slice); ok {
+							es := t.sortOf(u.Elem())
+							fc := t.comp("H."+tname+"."+g[len("elems:"):], "(Array Int Slice)")
+							f("E."+mangle(es), "(Array Int (Array Int "+es+"))", app("s.base", app("select", t.get(fc), v.S)))
+						}
+					}
+					continue
+				}
+				if c, s, ok := t.guardComp(mr, tname, g); ok {
+					f(c, s, v.S)
+				}
+			}
+			for _, cf := range m.Conds {
+				sc, oc, _ := t.condComps(tname, cf)
+				f(sc, "(Array Int Int)", v.S)
+				f(oc, "(Array Int Int)", v.S)
+				f(t.wakeComp(tname, cf), "(Array Int Int)", v.S)
+			}
+			for _, tk := range m.Tokens {
+				sh, _ := t.tokComps(tname, tk)
+				f(sh, "(Array Int Int)", v.S)
+			}
+		}
+		return
 	case x.Op == "call" && x.Name == "cells":
 		// every cell of the given Go type (pointer targets of that type)
 		T := env.typeArg(x.Args[0])
